@@ -538,3 +538,17 @@ fn test_from_vec_miri() {
     assert_eq!(deque.pop_front(), Some(0u8));
     assert!(deque.is_empty());
 }
+
+#[cfg(woodpile_verif)]
+impl<Container: PushTruncateContainer + Clone + Default> SlidingDeque<Container>
+where
+    <Container as PushTruncateContainer>::Item: Copy,
+{
+    /// Verification hook: returns the number of consumed (wasted) slots at
+    /// the front of the backing container, and the backing container's
+    /// total length.
+    #[must_use]
+    pub fn verif_waste(&self) -> (usize, usize) {
+        (self.consumed_prefix, self.container.slice().len())
+    }
+}
